@@ -91,7 +91,7 @@ func runC04(e *Env) {
 
 func c04Case(t *T) {
 	r := t.R
-	g := &progGen{maxDepth: 4, dynamic: true, ctrl: true}
+	g := &progGen{maxDepth: 4, dynamic: true, ctrl: true, styles: true}
 	p := GenProgram(r, g)
 	armPanics(p) // enables the X-Nest header: a second request served while the first is inside a handler
 	var failing []string
@@ -148,7 +148,13 @@ func c04Case(t *T) {
 
 	for _, rs := range p.Routes {
 		chain := append(append(append([]*MW{}, p.Globals...), rs.Chain...), rs.Main)
-		check("route", rs.Method, rs.RequestPath(r), chain, 200)
+		path := rs.RequestPath(r)
+		check("route", rs.Method, path, chain, 200)
+		if p.CacheCap >= 1 && strings.Contains(rs.FullPath, "{") {
+			// the repeat is answered from the route cache: same chain
+			t.Count("requests.cache_hit_repeat", 1)
+			check("route", rs.Method, path, chain, 200)
+		}
 	}
 	// two requests in flight at once: the inner one is served by the same router while the
 	// outer one is parked inside one of its handlers; both must still run exactly their own chain
@@ -196,8 +202,17 @@ func c04Case(t *T) {
 		nfStatus = 200 // instrumented fallback handlers write nothing: the lazy commit is 200
 	}
 	check("not_found", pick(r, []string{"GET", "POST", "DELETE"}), "/no/such/route", append(append([]*MW{}, p.Globals...), nf...), nfStatus)
-	// wrong method on an existing path
-	rs := pick(r, p.Routes)
+	// wrong method on an existing path (routes registered through Any allow every method)
+	var single []*RouteStmt
+	for _, x := range p.Routes {
+		if x.Style != "any" {
+			single = append(single, x)
+		}
+	}
+	if len(single) == 0 {
+		return
+	}
+	rs := pick(r, single)
 	other := "TRACE"
 	if p.NotAllowed {
 		na := p.NotAllowH
@@ -229,11 +244,12 @@ func runC12(e *Env) {
 	e.Require("programs.use_in_group", 500)
 	e.Require("routes.depth_ge_3", 200)
 	e.Require("routes.unprefixed_path_404", 2000)
+	e.Require("routes.cache_hit_repeat", 300)
 }
 
 func c12Case(t *T) {
 	r := t.R
-	g := &progGen{maxDepth: 5, dynamic: true, ctrl: true, probes: true}
+	g := &progGen{maxDepth: 5, dynamic: true, ctrl: true, probes: true, styles: true}
 	p := GenProgram(r, g)
 	var failing []string
 	t.Describe(func() any {
@@ -305,6 +321,11 @@ func c12Case(t *T) {
 		want := OnionEvents(chain)
 		path := rs.RequestPath(r)
 		rec, pv, panicked := Serve(router, NewReq(rs.Method, path))
+		if !panicked && p.CacheCap >= 1 && strings.Contains(rs.FullPath, "{") {
+			// repeat: answered from the route cache, must carry the same group/route middleware
+			t.Count("routes.cache_hit_repeat", 1)
+			rec, pv, panicked = Serve(router, NewReq(rs.Method, path))
+		}
 		if panicked {
 			failing = append(failing, rs.Name)
 			t.Fail("servehttp-panic", "%s %q panicked: %v", rs.Method, path, pv)
